@@ -90,7 +90,7 @@ func markReportConsumed(rep *shape.Object) {
 	if cols, ok := shape.FieldOf(rep, "Columns").(*shape.Slice); ok {
 		for _, cell := range cols.Elems {
 			if co, ok := cell.V.(*shape.Object); ok {
-				if vs, ok := shape.FieldOf(co, "values").(*shape.Stream); ok {
+				if vs, ok := columnStream(co); ok {
 					shape.MarkConsumed(vs, "report")
 				}
 			}
